@@ -123,7 +123,63 @@ func (g *Gen) hostileAnnotations() map[string]string {
 	if g.R.Chance(1, 3) {
 		ann[nsKey+"/"+sysgen.Pick(g.R, []string{"affinity", "anti-affinity", "memory-type", "cold-start"})] = g.hostileValue()
 	}
+	if g.R.Chance(1, 3) {
+		// well-formed affinity syntax with every operator and 0..3 values: what validation lets through is evaluated
+		// against the other containers later, when their keys resolve
+		ann[nsKey+"/"+sysgen.Pick(g.R, []string{"affinity", "anti-affinity"})] = g.structuredAffinity()
+	}
 	return ann
+}
+
+var (
+	affOps  = []string{"Equals", "NotEqual", "In", "NotIn", "Exists", "NotExist", "AlwaysTrue", "Matches", "MatchesNot", "MatchesAny", "MatchesNone", "", "Bogus"}
+	affKeys = []string{"name", "name", "labels/tier", "labels/io.kubernetes.container.name", "pod/name", "pod/labels/tier", "pod/namespace", "pod/qosclass", "", ":,:pod/namespace,name", "pod/labels/", "id"}
+	affVals = []string{"c0", "c1", "perf", "batch", "*", "[a-", "", "prod*", "default", "kube-system", "(", "c?"}
+)
+
+func (g *Gen) affExpr(indent string) string {
+	var b strings.Builder
+	fmt.Fprintf(&b, "%skey: %q\n", indent, sysgen.Pick(g.R, affKeys))
+	if op := sysgen.Pick(g.R, affOps); op != "" || g.R.Chance(1, 2) {
+		fmt.Fprintf(&b, "%soperator: %q\n", indent, op)
+	}
+	switch n := g.R.Intn(5); n {
+	case 0:
+		// no values at all
+	case 4:
+		fmt.Fprintf(&b, "%svalues: []\n", indent)
+	default:
+		fmt.Fprintf(&b, "%svalues:\n", indent)
+		for i := 0; i < n; i++ {
+			fmt.Fprintf(&b, "%s- %q\n", indent, sysgen.Pick(g.R, affVals))
+		}
+	}
+	return b.String()
+}
+
+func (g *Gen) structuredAffinity() string {
+	var b strings.Builder
+	for _, name := range []string{"c0", "c1", "c2", "keep"} {
+		if !g.R.Chance(2, 3) {
+			continue
+		}
+		fmt.Fprintf(&b, "%s:\n", name)
+		for n := g.R.Range(1, 2); n > 0; n-- {
+			first := "- "
+			if g.R.Chance(1, 2) {
+				fmt.Fprintf(&b, "%sscope:\n%s", first, g.affExpr("    "))
+				first = "  "
+			}
+			fmt.Fprintf(&b, "%smatch:\n%s", first, g.affExpr("    "))
+			if g.R.Chance(2, 3) {
+				fmt.Fprintf(&b, "  weight: %s\n", sysgen.Pick(g.R, []string{"1", "0", "-1", "1000", "-1000", "99999999999", "x", "1.5"}))
+			}
+		}
+	}
+	if b.Len() == 0 {
+		return "c0: [c1]"
+	}
+	return b.String()
 }
 
 // hostilePod builds a pod that may reuse a known ID, be unknown, or have absent sub-messages.
